@@ -7,7 +7,7 @@ mkdir -p $D/repo && cp -r /repo/efootprint $D/repo/efootprint
 if ! patch -p1 -s -d $D/repo < "$PATCH"; then echo "PATCH DOES NOT APPLY"; rm -rf $D; exit 3; fi
 cd /verif
 for id in "$@"; do
-  out=$(VERIF_REPO=$D/repo ${TIER_ENV:-} ./check $id --tier ${TIER:-quick} 2>&1)
+  out=$(env VERIF_REPO=$D/repo ${TIER_ENV:-} ./check $id --tier ${TIER:-quick} 2>&1)
   rc=$?
   echo "== $id rc=$rc: $(echo "$out" | grep -c '^VIOLATION') violation line(s)"
   echo "$out" | grep -v "^  File\|^    \|^Traceback" | cut -c1-400 | tail -${LINES_SHOWN:-4}
